@@ -131,7 +131,9 @@ func main() {
 		caseStartCPU.Store(cpuMicros())
 		caseStartWall.Store(time.Now().UnixNano())
 		curCase.Store(int64(c.ID))
+		t0 := time.Now()
 		res := execCase(&c)
+		res.ElapsedMs = int(time.Since(t0).Milliseconds())
 		curCase.Store(-1)
 		b, err := json.Marshal(res)
 		if err != nil {
